@@ -14,13 +14,13 @@ def sh(cmd, cwd=None, env=None, timeout=3600):
 ap = argparse.ArgumentParser()
 ap.add_argument("prop"); ap.add_argument("k")
 ap.add_argument("--demo-dest"); ap.add_argument("--demo-cmd"); ap.add_argument("--checks"); ap.add_argument("--src")
-ap.add_argument("--skip-suite", action="store_true")
+ap.add_argument("--skip-suite", action="store_true"); ap.add_argument("--tag", default="")
 a = ap.parse_args()
 src = a.src or "/tmp/seedout-%s" % a.prop
 patch = os.path.join(src, "patch%s.diff" % a.k)
 demo = os.path.join(src, "demo%s" % a.k)
 meta = json.load(open(os.path.join(src, "meta%s.json" % a.k)))
-wt = "/tmp/evalwt-%s-%s" % (a.prop, a.k)
+wt = "/tmp/evalwt-%s-%s%s" % (a.prop, a.tag, a.k)
 sh("git -C /repo worktree remove --force %s" % wt)
 rc, o = sh("git -C /repo worktree add -q %s HEAD" % wt)
 assert rc == 0, o
@@ -59,7 +59,7 @@ try:
     res["detected_by"] = [r["check"] for r in res["ran"] if r["exit"] == 1 and r["violation_lines"]]
 finally:
     sh("git -C /repo worktree remove --force %s" % wt)
-out = os.path.join(V, "seeded", "%s-%s" % (a.prop, a.k))
+out = os.path.join(V, "seeded", "%s-%s%s" % (a.prop, (a.tag + "-") if a.tag else "", a.k))
 shutil.rmtree(out, ignore_errors=True); os.makedirs(out)
 shutil.copy(patch, os.path.join(out, "patch.diff"))
 if os.path.isdir(demo): shutil.copytree(demo, os.path.join(out, "demo"))
